@@ -28,7 +28,7 @@ func init() {
 
 const fedHeader = `From Coq Require Import String List ZArith Bool.
 Import ListNotations.
-From GW Require Import Base.Res Base.Json Gql.Syntax Gql.Spec Gql.Guards Gw.Locate Gw.LocateCheck Gw.FedCheck Gw.Points Gw.PointsCheck Gw.Select Gw.Vars.
+From GW Require Import Base.Res Base.Json Gql.Syntax Gql.Spec Gql.Guards Gw.Locate Gw.LocateCheck Gw.FedCheck Gw.Points Gw.PointsCheck Gw.Select Gw.Vars Gw.Plan Gw.PlanCheck.
 Local Open Scope string_scope.
 Local Open Scope bool_scope.
 `
@@ -429,6 +429,14 @@ func runFed(cfg *runCfg, prop string) error {
 						len(parsed.Fragments)+2, c.Strs(cs.Fed.Priorities), c.URLMap(fed.Cap.Locs), c.FieldTypes(fed.Cap.Schema), frags, c.S(root), sels, strings.Join(of, "; "))
 				}
 			}
+			if model != "true" && len(parsed.Fragments) == 0 {
+				// the planner model (documents without named fragments): the whole step tree
+				if plans, perr := fed.Plan(q.Text); perr == nil && one.OpIndex < len(plans) {
+					model += fmt.Sprintf(" && plan_agrees %d %s %s %s [] %s %s %s", 40, c.Strs(cs.Fed.Priorities), c.URLMap(fed.Cap.Locs),
+						c.FieldTypes(fed.Cap.Schema), c.S(root), sels, c.pstep(plans[one.OpIndex].RootStep))
+					doc.Dist["model:plan-compared"]++
+				}
+			}
 			if prop == "C02" && model != "true" {
 				// the variables each step declares against the model of plan.go's bookkeeping
 				if plans, perr := fed.Plan(q.Text); perr == nil && one.OpIndex < len(plans) {
@@ -595,4 +603,14 @@ func sortedKeysInt(m map[string]int) []string {
 	}
 	sort.Strings(keys)
 	return keys
+}
+
+// pstep prints a plan step and its dependents as a Gw.Plan.pstep term
+func (c *CoqFile) pstep(s *gateway.QueryPlanStep) string {
+	loc := locationOf(s.Queryer)
+	thens := []string{}
+	for _, t := range s.Then {
+		thens = append(thens, c.pstep(t))
+	}
+	return fmt.Sprintf("(PStep %s %s %s %s [%s])", c.S(loc), c.S(s.ParentType), c.Strs(s.InsertionPoint), c.Sels(s.SelectionSet), strings.Join(thens, "; "))
 }
